@@ -92,6 +92,16 @@ Serving(c) == IF c = NoCfg THEN {} ELSE ServingOf(Run(c, 1, {}, {}).hs)
 ListeningOf(c) == IF c = NoCfg THEN {} ELSE {h.l : h \in Run(c, 1, {}, {}).hs}
 
 (* ---------------------------------- mechanism ---------------------------------- *)
+(* Config.Validate (config.go:59-84), transcribed: every service listener must have type tcp or udp, an address of the
+   form IP:port, and no (type, address) may occur twice in the whole configuration.  Address ids >= 10 stand for
+   malformed address strings (11 "localhost:port": host is not an IP; 12 "127.0.0.1": no port; 13 ":port": empty host).
+   Legacy keys are not validated. *)
+AllSvcListeners(c) == UNION {{<<i, j>> : j \in 1..Len(c.svcs[i].ls)} : i \in 1..Len(c.svcs)}
+LnAt(c, x) == c.svcs[x[1]].ls[x[2]]
+ValidCfg(c) == /\ \A x \in AllSvcListeners(c) : LnAt(c, x)[1] \in {"tcp", "udp"} /\ LnAt(c, x)[2] < 10
+               /\ \A x, y \in AllSvcListeners(c) : x # y => LnAt(c, x) # LnAt(c, y)
+Loadable(c) == c.kind = "ok" /\ ValidCfg(c)
+
 Init == /\ gens = <<>> /\ cur = 0 /\ lastGood = NoCfg /\ phase = "idle" /\ pend = NoCfg
         /\ foreign = {} /\ nloads = 0
         /\ tr = <<>>
@@ -103,7 +113,7 @@ Runners == Cardinality(LiveGens)     \* goroutines parked in runConfig
 
 \* loadConfig that fails before runConfig (read / parse / validate): nothing changes  (main.go:69-79)
 LoadEarlyFail(ci) == /\ phase = "idle" /\ nloads < MaxLoads
-                     /\ ci.kind # "ok"
+                     /\ ~Loadable(ci)
                      /\ nloads' = nloads + 1
                      /\ tr' = Append(tr, [a |-> "Load", cfg |-> ci, frn |-> {}, ok |-> FALSE, failedAt |-> 0 - 1,
                                           serving |-> Serving(lastGood), listening |-> ListeningOf(lastGood)])
@@ -112,7 +122,7 @@ LoadEarlyFail(ci) == /\ phase = "idle" /\ nloads < MaxLoads
 \* runConfig: start the new generation (main.go:81-84); frn = listeners a foreign socket holds during this load
 StartNew(ci, frn) ==
   /\ phase = "idle" /\ nloads < MaxLoads
-  /\ ci.kind = "ok"
+  /\ Loadable(ci)
   /\ frn \subseteq (Listeners \ LiveListening)        \* a foreign socket can only hold what the server does not
   /\ LET r == Run(ci, 1, {}, frn) IN
      /\ nloads' = nloads + 1
